@@ -324,7 +324,28 @@ func (rw *rewriter) stmt(s ast.Stmt) []ast.Stmt {
 	case *ast.LabeledStmt:
 		s.Stmt = &ast.BlockStmt{List: rw.stmt(s.Stmt)}
 		return []ast.Stmt{s}
-	case *ast.DeclStmt, *ast.EmptyStmt, *ast.BranchStmt, *ast.IncDecStmt:
+	case *ast.DeclStmt:
+		// var ( xCh = make(chan struct{}) ): tell the simulator the channel's name
+		out := []ast.Stmt{s}
+		if gd, ok := s.Decl.(*ast.GenDecl); ok && gd.Tok == token.VAR {
+			for _, sp := range gd.Specs {
+				vs, ok := sp.(*ast.ValueSpec)
+				if !ok || len(vs.Values) != len(vs.Names) {
+					continue
+				}
+				for i, v := range vs.Values {
+					if c, ok := v.(*ast.CallExpr); ok {
+						if id, ok := c.Fun.(*ast.Ident); ok && id.Name == "make" && len(c.Args) >= 1 {
+							if _, isChan := c.Args[0].(*ast.ChanType); isChan && vs.Names[i].Name != "_" {
+								out = append(out, call("Name", ast.NewIdent(vs.Names[i].Name), str(vs.Names[i].Name)))
+							}
+						}
+					}
+				}
+			}
+		}
+		return out
+	case *ast.EmptyStmt, *ast.BranchStmt, *ast.IncDecStmt:
 		return []ast.Stmt{s}
 	}
 	return []ast.Stmt{s}
